@@ -7,6 +7,7 @@
    values, elements of the variable-length property); float payloads (linspace) and the
    caller's arrays are opaque descriptors.  Model only; proofs are in MockLemmas.v. *)
 From Geff Require Import Base Dtype GraphVal Vlen.
+From Geff.Gen Require Import Consts.
 Open Scope Z_scope.
 Open Scope list_scope.
 
@@ -39,7 +40,8 @@ Inductive pkey := KStr (s : string) | KOther.
 Inductive pval :=
 | VDtype (s : string)                               (* a dtype name *)
 | VArray (dt : dtype) (len : nat) (tail : list nat)  (* a numpy array: dtype, len(), trailing shape *)
-| VOther.                                           (* anything else *)
+| VOther                                            (* anything else *)
+| VObjArray (elems : list varr).                    (* a numpy object array whose elements are numpy arrays *)
 Inductive extras := ENone | ENotDict | EDict (items : list (pkey * pval)).
 
 Record params := {
@@ -73,7 +75,31 @@ Definition dict_set {V} (k : string) (v : V) (d : list (string * V)) : list (str
   else d ++ [(k, v)].
 
 (* ---------- geff_spec.utils.create_props_metadata ---------- *)
-(* (the float16 -> float32 upcast is outside the modelled input space) *)
+(* np.dtype(...).name of an array dtype, as PropMetadata._convert_dtype computes it: a numpy bytes array is
+   called bytes8, bytes16, ... (never "bytes"), so one representative stands for every width *)
+Definition arr_dtype_name (d : dtype) : string :=
+  match d with
+  | DBool => "bool" | DI8 => "int8" | DI16 => "int16" | DI32 => "int32" | DI64 => "int64"
+  | DU8 => "uint8" | DU16 => "uint16" | DU32 => "uint32" | DU64 => "uint64"
+  | DF16 => "float16" | DF32 => "float32" | DF64 => "float64"
+  | DStr => "str" | DBytes => "bytes8" | DObj => "object"
+  end%string.
+(* PropMetadata accepts the dtype iff that name is in VALID_DTYPES (regenerated from the source) *)
+Definition storable (d : dtype) : bool := smem (arr_dtype_name d) valid_dtypes.
+
+(* "If dtype is float16, upcasts to float32": values.astype(float32) is also assigned back into the
+   property dict the caller handed in, so the array kept in node_props / edge_props changes with it;
+   an object array (variable-length property) is not a float16 array *)
+Definition upcast_arr (a : parr) : parr :=
+  match a_payload a with
+  | PVarlen _ => a
+  | _ => if dtype_eqb (a_dt a) DF16
+         then {| a_dt := DF32; a_len := a_len a; a_tail := a_tail a; a_payload := a_payload a; a_missing := a_missing a |}
+         else a
+  end.
+
+(* the part after the upcast: dtype / varlength detection and PropMetadata(...) with its dtype whitelist
+   (a pydantic ValidationError is a ValueError) *)
 Definition create_props_metadata (name : string) (a : parr) (unit : option string) : res pmeta :=
   match a_payload a with
   | PVarlen elems =>
@@ -81,10 +107,14 @@ Definition create_props_metadata (name : string) (a : parr) (unit : option strin
       | [] => Err IndexError                                            (* values[0] *)
       | e0 :: _ =>
           if forallb (fun e => dtype_eqb (v_dt e) (v_dt e0)) elems
-          then Ok {| pm_name := name; pm_dt := v_dt e0; pm_varlen := true; pm_unit := unit |}
+          then if storable (v_dt e0)
+               then Ok {| pm_name := name; pm_dt := v_dt e0; pm_varlen := true; pm_unit := unit |}
+               else Err ValueError
           else Err ValueError
       end
-  | _ => Ok {| pm_name := name; pm_dt := a_dt a; pm_varlen := false; pm_unit := unit |}
+  | _ => if storable (a_dt a)
+         then Ok {| pm_name := name; pm_dt := a_dt a; pm_varlen := false; pm_unit := unit |}
+         else Err ValueError
   end.
 
 (* ---------- geff_spec.utils.add_or_update_props_metadata ---------- *)
@@ -166,10 +196,14 @@ Definition gen_values (name dts : string) (count : nat) : res parr :=
                   else PLin 1 10 count))
        end.
 
-Definition extra_one (count : nat) (kv : pkey * pval) : res (string * parr) :=
+(* `reserved` = the names the function generates itself on that side (as repaired: a request for an
+   extra property of such a name is rejected) *)
+Definition extra_one (reserved : list string) (count : nat) (kv : pkey * pval) : res (string * parr) :=
   match fst kv with
   | KOther => Err ValueError
   | KStr name =>
+      if smem name reserved then Err ValueError
+      else
       match snd kv with
       | VDtype dts => match gen_values name dts count with Err e => Err e | Ok a => Ok (name, a) end
       | VArray dt len tail =>
@@ -177,29 +211,45 @@ Definition extra_one (count : nat) (kv : pkey * pval) : res (string * parr) :=
           then Ok (name, {| a_dt := dt; a_len := len; a_tail := tail; a_payload := PGiven; a_missing := None |})
           else Err ValueError
       | VOther => Err ValueError
+      | VObjArray elems =>
+          if Nat.eqb (length elems) count
+          then Ok (name, {| a_dt := DObj; a_len := length elems; a_tail := []; a_payload := PVarlen elems; a_missing := None |})
+          else Err ValueError
       end
   end.
 
-Fixpoint add_extras (count : nat) (items : list (pkey * pval)) (ps : props) (ms : list pmeta) : res (props * list pmeta) :=
+(* prop_dict = {"values": ..., "missing": None}; props[name] = prop_dict; create_props_metadata(name, prop_dict)
+   (which replaces a float16 array inside prop_dict) *)
+Fixpoint add_extras (reserved : list string) (count : nat) (items : list (pkey * pval)) (ps : props) (ms : list pmeta)
+  : res (props * list pmeta) :=
   match items with
   | [] => Ok (ps, ms)
   | kv :: r =>
-      match extra_one count kv with
+      match extra_one reserved count kv with
       | Err e => Err e
       | Ok (name, a) =>
-          match create_props_metadata name a None with
+          let a' := upcast_arr a in
+          match create_props_metadata name a' None with
           | Err e => Err e
-          | Ok m => add_extras count r (dict_set name a ps) (ms ++ [m])
+          | Ok m => add_extras reserved count r (dict_set name a' ps) (ms ++ [m])
           end
       end
   end.
 
-Definition with_extras (ex : extras) (count : nat) (ps : props) (ms : list pmeta) : res (props * list pmeta) :=
+Definition with_extras (ex : extras) (reserved : list string) (count : nat) (ps : props) (ms : list pmeta)
+  : res (props * list pmeta) :=
   match ex with
   | ENone => Ok (ps, ms)
   | ENotDict => Err ValueError
-  | EDict items => add_extras count items ps ms
+  | EDict items => add_extras reserved count items ps ms
   end.
+
+(* generated_node_props / generated_edge_props *)
+Definition included_axes (t z y x : bool) : list string :=
+  (if t then [s_t] else []) ++ (if z then [s_z] else []) ++ (if y then [s_y] else []) ++ (if x then [s_x] else []).
+Definition generated_edge (missing : bool) : list string := if missing then [s_sparse_prop] else [].
+Definition generated_node (t z y x varlen missing : bool) : list string :=
+  included_axes t z y x ++ (if varlen then [s_var_length] else []) ++ (if missing then [s_sparse_prop] else []).
 
 (* the variable-length property: element i is an (i, i, i) array of uint64 filled with i *)
 Definition varlen_elem (i : nat) : varr :=
@@ -248,13 +298,15 @@ Definition dummy (p : params) : res geff :=
   | None => Err TypeError
   | Some iddt =>
       if is_integer iddt && (dt_max iddt + 1 <? p_n p) then Err ValueError
+      else if negb (is_numeric iddt) then Err TypeError                 (* np.arange(n, dtype="str") *)
       else
         let n := Z.to_nat (p_n p) in
         match add_axes p n with Err e => Err e | Ok (np0, nm0, axes) =>
         let edges := mock_edges (p_directed p) (p_n p) (p_e p) in
         let ne := length edges in
-        match with_extras (p_enp p) n np0 nm0 with Err e => Err e | Ok (np1, nm1) =>
-        match with_extras (p_eep p) ne [] [] with Err e => Err e | Ok (ep1, em1) =>
+        match with_extras (p_enp p) (generated_node (p_t p) (p_z p) (p_y p) (p_x p) (p_varlen p) (p_missing p)) n np0 nm0
+        with Err e => Err e | Ok (np1, nm1) =>
+        match with_extras (p_eep p) (generated_edge (p_missing p)) ne [] [] with Err e => Err e | Ok (ep1, em1) =>
         match add_varlen (p_varlen p) n np1 nm1 with Err e => Err e | Ok (np2, nm2) =>
         match add_sparse (p_missing p) n ne np2 nm2 ep1 em1 with Err e => Err e | Ok (np3, nm3, ep2, em2) =>
         Ok {| g_meta := {| m_directed := p_directed p; m_axes := axes;
@@ -278,7 +330,7 @@ Record store := { s_meta : meta; s_iddt : dtype; s_ids : list Z; s_edt : dtype; 
 
 (* write_props_arrays: metadata from the array, serialisation of variable-length values *)
 Definition write_prop (kv : string * parr) : res (pmeta * (string * sprop)) :=
-  let a := snd kv in
+  let a := upcast_arr (snd kv) in
   match create_props_metadata (fst kv) a None with
   | Err e => Err e
   | Ok m =>
